@@ -150,11 +150,13 @@ func c11PipelineShape(seed *Item) bool {
 
 // ---------- obligations ----------
 
-func c11Dedupe(levels, fanout, classes int) {
+func c11Dedupe(levels, fanout, classes int, pipelineShaped bool) {
 	t := c11Build(levels, fanout, classes)
 	verifrt.Assume(t.seed.CheckConsistency() == nil)
-	verifrt.Assume(c11Reach(t.seed))
-	verifrt.Assume(c11PipelineShape(t.seed))
+	if pipelineShaped {
+		verifrt.Assume(c11Reach(t.seed))
+		verifrt.Assume(c11PipelineShape(t.seed))
+	}
 	pre := c11Present(t.seed)
 	preURL := make([]string, len(pre))
 	preDone := make([]bool, len(pre))
@@ -178,6 +180,11 @@ func c11Dedupe(levels, fanout, classes int) {
 		}
 	}
 	verifrt.Assert(!verifrt.Any(dup...), "C11 dedupe leaves one node per URL")
+	if !pipelineShaped {
+		// on arbitrary consistent trees (two processed nodes may share a URL) only uniqueness is demanded:
+		// keeping one of two processed duplicates necessarily drops the other one's subtree
+		return
+	}
 	// no URL is discarded altogether
 	var keptAll, keptDoneAll []bool
 	for i := 1; i < len(pre); i++ {
@@ -195,8 +202,11 @@ func c11Dedupe(levels, fanout, classes int) {
 	verifrt.Assert(verifrt.All(keptDoneAll...), "C11 dedupe keeps the completed copy")
 }
 
-func VerifH_C11_dedupe_small() { c11Dedupe(3, 2, 3) }
-func VerifH_C11_dedupe_wide()  { c11Dedupe(2, 4, 3) }
+func VerifH_C11_dedupe_small() { c11Dedupe(3, 2, 3, true) }
+func VerifH_C11_dedupe_wide()  { c11Dedupe(2, 4, 3, true) }
+
+// VerifH_C11_dedupe_anytree: every tree the model's consistency check accepts, whatever its statuses.
+func VerifH_C11_dedupe_anytree() { c11Dedupe(3, 2, 2, false) }
 
 // c11Complete: CompleteAndCheck() is true iff nothing in the tree still awaits fetching or post-processing.
 func c11Complete(levels, fanout int) {
